@@ -3,7 +3,7 @@ Engine E: in-memory file system with a durability model, crash after every opera
 META = dict(
     engine="vfs", level="fault_enumeration",
     technique="configuration grid x crash after every file-system operation x every admissible loss pattern of unsynced data, "
-              "on a real Logger+Log(s) (always counter streams and sparse once/update/change streams) driven through its runner "
+              "on a real Logger+Log(s) (always counter streams, sparse once/update/change streams, streak/deck queue streams) driven through its runner "
               "generator on an in-memory file system",
     text="Every combination of keep {0,1,2,3} x cycle period {0,1,2 ticks} x size threshold {0, header+1 record, header+3 records} x "
          "flush period {2,3 ticks} x reuse x restart {none, STOP/START of the same logger, new logger objects on the same directory} "
@@ -19,8 +19,8 @@ META = dict(
          "all-lost and all-kept image of every crash point is additionally handed to a fresh Logger on the same directory (START, RUN, RUN, "
          "STOP): afterwards every retained file of such a log must start with the header.",
     note="Durability model is an assumption (directory operations atomic and durable in program order, data durable only after fsync, "
-         "any prefix of unsynced appended bytes may survive); rules always/once/update/change (promised records of the sparse rules from "
-         "the C22 reference), streak/deck not run here; filing.ocfn itself is replaced by the double (its contract is "
+         "any prefix of unsynced appended bytes may survive); rules always/once/update/change/streak/deck (promised records of the non-always rules from "
+         "the C22 reference); filing.ocfn itself is replaced by the double (its contract is "
          "modelled, its code is not run); no I/O errors injected; a crash before the newest file ever reached a flush point (first second of a run, or inside "
          "Log.cycle) may leave it empty or with a torn header and is not judged.",
 )
@@ -36,7 +36,8 @@ TAG = "x"
 RECORD = re.compile(r"^\d+(?:\.\d+)?\t(\d+)$")
 
 
-RULENAME = dict(always="Always", once="Once", update="Update", change="Change")
+RULENAME = dict(always="Always", once="Once", update="Update", change="Change", streak="Streak", deck="Deck")
+QUEUE_RULES = ("streak", "deck")
 SPARSE_BASE = "logS"
 SPARSE_SHARE = "mc.s"
 
@@ -112,6 +113,20 @@ def configs(tier):
                                 out.append(dict(keep=k, cyc=c, size=s, flush=flush, reuse=reuse, period=1,
                                                 restart=restart, mid=mid, nticks=nticks, logs=0 if alone else 1,
                                                 sparse=dict(rule=rule, writes=writes)))
+    # Queue rules: a streak / deck log on its own share; a producer queues one element (the send
+    # number) every tick before the logger runs, so the log writes a record at every send.
+    for rule in QUEUE_RULES:
+        for k, c, s in rots:
+            for flush in flushes:
+                for reuse in ((False, True) if thorough else (False,)):
+                    for alone in (True, False):
+                        variants = [("none", 0)]
+                        if thorough or (k == 0 and alone):
+                            variants.append(("same", 3))
+                        for restart, mid in variants:
+                            out.append(dict(keep=k, cyc=c, size=s, flush=flush, reuse=reuse, period=1,
+                                            restart=restart, mid=mid, nticks=nticks, logs=0 if alone else 1,
+                                            sparse=dict(rule=rule, writes="every")))
     return out
 
 
@@ -124,7 +139,10 @@ def cfg_str(c):
     if c.get("logs", 1) != 1:
         s += " logs=%d" % c["logs"]
     if c.get("sparse"):
-        s += " sparse=%s,writes@0%s" % (c["sparse"]["rule"], "".join(",%d" % t for t in c["sparse"]["writes"]))
+        if c["sparse"]["writes"] == "every":
+            s += " queue=%s,one element per tick" % c["sparse"]["rule"]
+        else:
+            s += " sparse=%s,writes@0%s" % (c["sparse"]["rule"], "".join(",%d" % t for t in c["sparse"]["writes"]))
     return s
 
 
@@ -200,8 +218,8 @@ class Run:
         from ioflo.base import globaling as g
         c = self.cfg
         fs = fs or self.fs
-        rules = dict(always=g.ALWAYS, once=g.ONCE, update=g.UPDATE, change=g.CHANGE)
-        init = {"mc.x": self.seq, SPARSE_SHARE: self.sval}
+        rules = dict(always=g.ALWAYS, once=g.ONCE, update=g.UPDATE, change=g.CHANGE, streak=g.STREAK, deck=g.DECK)
+        init = {"mc.x": self.seq, SPARSE_SHARE: [] if (self.sparse and self.sparse["rule"] == "streak") else self.sval}
         first = self.logs[0]
         w = vfs.LogWorld(fs, rules[first.rule], fields=["n"], share_init=[("n", init[first.share])], tick=TICK,
                          base=first.base, tag=TAG, share_name=first.share,
@@ -288,10 +306,18 @@ class Run:
             self.seq += 1
             if "mc.x" in w.shares:
                 w.shares["mc.x"].update(n=self.seq)
-            wrote = bool(self.sparse and t in self.sparse["writes"])
+            queued = bool(self.sparse and self.sparse["writes"] == "every")
+            wrote = bool(self.sparse and not queued and t in self.sparse["writes"])
             if wrote:
                 self.sval = t + 1
                 w.shares[SPARSE_SHARE].update(n=self.sval)       # before the logger in this tick
+            if queued:                                             # the producer: one element per tick
+                self.sval = self.seq
+                if self.sparse["rule"] == "streak":
+                    w.shares[SPARSE_SHARE]["n"].append(self.seq)
+                else:
+                    from ioflo.aid.odicting import odict
+                    w.shares[SPARSE_SHARE].push(odict(n=self.seq))
             for ls in self.logs:                                   # what the rule promises for this send
                 if ls.ref is None:
                     ls.expected.append(self.seq)
@@ -301,8 +327,10 @@ class Run:
                         ls.ref.apply("T")
                     if wrote:
                         ls.ref.apply("wd")
+                    if queued:
+                        ls.ref.apply("q")
                     ls.ref.apply(dict(START="START", RUN="R", STOP="STOP")[ctl])
-                    if len(ls.ref.records) > before:
+                    for _ in range(len(ls.ref.records) - before):
                         ls.expected.append(self.sval)
             self.fs.mark("send", control=ctl, seq=self.seq, tick=t)
             try:
@@ -632,6 +660,8 @@ def run():
         "copy k must hold exactly what the main file held k rotations ago (Logger docstring: keep = number of log copies in rotation)",
         "records are numbered by the logger send that writes them (START, RUN and STOP all log under rule always), so STOP followed by "
         "START at the same values still gives distinct records",
+        "streak/deck logs log their own share; a producer queues one element (the send number) per tick before the logger runs, so every send "
+        "writes one record; same per-log stream, rotation-threshold and crash oracles",
         "sparse logs (once/update/change) log their own share, written before the logger in the listed ticks with the value tick+1; which "
         "sends produce a record is taken from the C22 reference model of the statement (checks.c22.Ref)",
         "after a crash: the crash clause of the statement (flushed records present) plus order/at-most-once/no headerless records; the "
@@ -647,7 +677,8 @@ def run():
                              ticks_per_run=cfgs[0]["nticks"] if cfgs else 0)
     return ck.finish(
         rule="configurations (keep x cycle period x size threshold x flush period x reuse x restart kind x one/two/three always logs%s; plus "
-             "sparse rule {once,update,change} x write schedule x {no rotation, cycle period below/above flush period} x alone/with always log) "
+             "sparse rule {once,update,change} x write schedule x {no rotation, cycle period below/above flush period} x alone/with always log; "
+             "queue rule {streak,deck} with one element queued per tick x the same rotation settings x alone/with always log) "
              "x crash after every journalled "
              "VFS operation x every prefix (all byte offsets) of each file's unsynced bytes; evaluations = crash images + clean-state "
              "comparisons; distinct = (configuration, operation index, loss pattern) with at least one unsynced byte lost"
